@@ -14,6 +14,8 @@ import (
 	"fmt"
 	"math/big"
 	"net"
+	"reflect"
+	"strings"
 	"time"
 
 	kmip "github.com/ovh/kmip-go"
@@ -180,6 +182,16 @@ func wrapGet(minor int, obj kmip.Object) *kmip.ResponseMessage {
 
 // transport sends the registered object through a Get response in encoding enc and returns the received payload.
 func transport(c *core.Ctx, enc string, minor int, obj kmip.Object, label string) *payloads.GetResponsePayload {
+	if obj == nil || (reflect.ValueOf(obj).Kind() == reflect.Ptr && reflect.ValueOf(obj).IsNil()) {
+		// "every key format the client can register it in": the builder refused a key the property names
+		what := label
+		if k := strings.Index(what, " at 1."); k > 0 {
+			what = what[:k]
+		}
+		what = strings.Join(strings.Fields(what), "-")
+		c.Violation("C14:register-build:"+what, label+": the register builder produced no object", nil)
+		return nil
+	}
 	msg := wrapGet(minor, obj)
 	var doc []byte
 	if p, pv, st := core.Guard(func() { doc = marshal(enc, msg) }); p {
@@ -201,7 +213,166 @@ func transport(c *core.Ctx, enc string, minor int, obj kmip.Object, label string
 		c.Violation("C14:transport-wrong-payload:"+enc, fmt.Sprintf("%s: received payload is %T", label, back.BatchItem[0].ResponsePayload), nil)
 		return nil
 	}
+	// the receive buffer is reused by its owner: the transported object must not depend on it any more
+	for k := range doc {
+		doc[k] = 0xA5
+	}
 	return pl
+}
+
+// heldCase: K objects arrive one after the other on ONE ttlv stream; all of them are kept and the keys are
+// extracted only after the last message has been received.
+func heldCase(c *core.Ctx, r *core.Rand, i int) {
+	minor := i % 5
+	cl, done := dummyClient(minor)
+	defer done()
+	type held struct {
+		label string
+		obj   kmip.Object
+		check func(pl *payloads.GetResponsePayload) string
+	}
+	var hs []held
+	u := kmip.CryptographicUsageSign
+	K := 3 + r.Intn(6)
+	sameLayout := r.P(1, 2)
+	kind0 := r.Intn(8)
+	for k := 0; k < K; k++ {
+		kind := r.Intn(8)
+		if sameLayout {
+			kind = kind0 // same-layout messages: a reused buffer gives another valid key, not a parse error
+		}
+		switch kind {
+		case 0, 1:
+			val := r.Bytes(32)
+			kf := []kmipclient.KeyFormat{kmipclient.RAW, kmipclient.Transparent}[kind]
+			hs = append(hs, held{fmt.Sprintf("symmetric(%d)", kind), cl.Register().WithKeyFormat(kf).SymmetricKey(kmip.CryptographicAlgorithmAES, kmip.CryptographicUsageEncrypt, append([]byte{}, val...)).RequestPayload().Object,
+				func(pl *payloads.GetResponsePayload) string {
+					got, err := pl.SymmetricKey()
+					if err != nil {
+						return "SymmetricKey(): " + err.Error()
+					}
+					if !bytes.Equal(got, val) {
+						return fmt.Sprintf("SymmetricKey() = %x, sent %x", got, val)
+					}
+					return ""
+				}})
+		case 2:
+			val := r.Bytes(24)
+			hs = append(hs, held{"secret", cl.Register().Secret(kmip.SecretDataTypePassword, append([]byte{}, val...)).RequestPayload().Object,
+				func(pl *payloads.GetResponsePayload) string {
+					got, err := pl.Secret()
+					if err != nil {
+						return "Secret(): " + err.Error()
+					}
+					if !bytes.Equal(got, val) {
+						return fmt.Sprintf("Secret() = %x, sent %x", got, val)
+					}
+					return ""
+				}})
+		case 3, 4:
+			key := rsaKey(r, 128, "")
+			kf := []kmipclient.KeyFormat{kmipclient.PKCS1, kmipclient.PKCS8}[kind-3]
+			hs = append(hs, held{fmt.Sprintf("rsa-private(%d)", kind), cl.Register().WithKeyFormat(kf).RsaPrivateKey(key, u).RequestPayload().Object,
+				func(pl *payloads.GetResponsePayload) string {
+					got, err := pl.RsaPrivateKey()
+					if err != nil {
+						return "RsaPrivateKey(): " + err.Error()
+					}
+					if !got.Equal(key) {
+						return "RsaPrivateKey() returns a different key"
+					}
+					return ""
+				}})
+		case 5:
+			key := ecKey(r, curves[r.Intn(4)], 5)
+			hs = append(hs, held{"ec-private-sec1", cl.Register().WithKeyFormat(kmipclient.SEC1).EcdsaPrivateKey(key, u).RequestPayload().Object,
+				func(pl *payloads.GetResponsePayload) string {
+					got, err := pl.EcdsaPrivateKey()
+					if err != nil {
+						return "EcdsaPrivateKey(): " + err.Error()
+					}
+					if !got.Equal(key) {
+						return "EcdsaPrivateKey() returns a different key"
+					}
+					return ""
+				}})
+		case 6:
+			key := ecKey(r, curves[r.Intn(4)], 5)
+			hs = append(hs, held{"ec-public-transparent", cl.Register().WithKeyFormat(kmipclient.Transparent).EcdsaPublicKey(&key.PublicKey, u).RequestPayload().Object,
+				func(pl *payloads.GetResponsePayload) string {
+					got, err := pl.EcdsaPublicKey()
+					if err != nil {
+						return "EcdsaPublicKey(): " + err.Error()
+					}
+					if !got.Equal(&key.PublicKey) {
+						return "EcdsaPublicKey() returns a different key"
+					}
+					return ""
+				}})
+		default:
+			key := rsaKey(r, 128, "")
+			hs = append(hs, held{"rsa-public-x509", cl.Register().WithKeyFormat(kmipclient.X509).RsaPublicKey(&key.PublicKey, u).RequestPayload().Object,
+				func(pl *payloads.GetResponsePayload) string {
+					got, err := pl.RsaPublicKey()
+					if err != nil {
+						return "RsaPublicKey(): " + err.Error()
+					}
+					if !got.Equal(&key.PublicKey) {
+						return "RsaPublicKey() returns a different key"
+					}
+					return ""
+				}})
+		}
+	}
+	a, b := net.Pipe()
+	defer a.Close()
+	defer b.Close()
+	go func() {
+		st := ttlv.NewStream(a, 1<<20)
+		for _, h := range hs {
+			if h.obj == nil {
+				continue
+			}
+			if err := st.Send(wrapGet(minor, h.obj)); err != nil {
+				return
+			}
+		}
+	}()
+	rs := ttlv.NewStream(b, 1<<20)
+	b.SetReadDeadline(time.Now().Add(20 * time.Second))
+	var got []*kmip.ResponseMessage
+	for _, h := range hs {
+		if h.obj == nil {
+			c.Violation("C14:register-build:"+h.label, "held family: the register builder produced no object for "+h.label, nil)
+			return
+		}
+		var m kmip.ResponseMessage
+		if err := rs.Recv(&m); err != nil {
+			c.Violation("C14:transport-rejected:stream", fmt.Sprintf("held family: message carrying %s not received: %v", h.label, err), nil)
+			return
+		}
+		got = append(got, &m)
+	}
+	c.Count("held_streams", 1)
+	labels := ""
+	for k, h := range hs {
+		labels += h.label + ","
+		c.Count("held_objects", 1)
+		pl, ok := got[k].BatchItem[0].ResponsePayload.(*payloads.GetResponsePayload)
+		if !ok {
+			c.Violation("C14:transport-wrong-payload:stream", fmt.Sprintf("held family: received payload is %T", got[k].BatchItem[0].ResponsePayload), nil)
+			continue
+		}
+		var why string
+		if p, pv, stk := core.Guard(func() { why = h.check(pl) }); p {
+			c.Violation(core.PanicSig(pv, stk), fmt.Sprintf("accessor panicked on held %s: %v", h.label, pv), map[string]any{"stack": stk})
+			continue
+		}
+		if why != "" {
+			c.Violation("C14:key-differs:held-across-messages:"+h.label, fmt.Sprintf("object %d of %d (%s) received at 1.%d on one stream and read after the later messages arrived: %s", k+1, len(hs), h.label, minor, why), nil)
+		}
+	}
+	c.Distinct(core.Hash64("held", labels, fmt.Sprint(minor)))
 }
 
 func clip(enc string, b []byte) string {
@@ -722,11 +893,12 @@ func Spec() *core.Spec {
 			"part 2: 19 object kinds/formats with every subset (<= 12 removable nodes) or random subsets of their optional nodes removed, wrapped keys and key-format mismatches; every accessor is called on whatever still decodes. " +
 			"distinct = distinct (key, format, version, encoding) transports and distinct degraded tree shapes",
 		Assumptions: []string{"keys smaller than production size exercise the same code paths; a few 1024-bit moduli are included", "mathematical equality = Equal() of crypto/rsa and crypto/ecdsa, byte equality for symmetric keys and secrets"},
-		Required: []string{"transports", "accessor_calls", "degraded_decodable", "degraded_accessor_calls", "rsa.d-leading-zero-byte", "rsa.d-starts-hi", "rsa.d-starts-lo", "ec.P-224", "ec.P-256", "ec.P-384", "ec.P-521",
+		Required: []string{"transports", "accessor_calls", "held_objects", "degraded_decodable", "degraded_accessor_calls", "rsa.d-leading-zero-byte", "rsa.d-starts-hi", "rsa.d-starts-lo", "ec.P-224", "ec.P-256", "ec.P-384", "ec.P-521",
 			"ec.d-leading-zero-byte", "ec.d-full-width.P-521", "ec.d-full-width.P-256", fmt.Sprintf("ec.transparent.format-%d", kmip.KeyFormatTypeTransparentECDSAPrivateKey), fmt.Sprintf("ec.transparent.format-%d", kmip.KeyFormatTypeTransparentECPrivateKey)},
 		Families: []core.Family{
 			{Name: "keys", N: nOf(1440, 72000), Run: keyCase},
 			{Name: "degraded", N: nOf(19*32, 19*32*40), Run: degradedCase},
+			{Name: "held", N: nOf(60, 6000), Run: heldCase},
 		},
 	}
 }
